@@ -292,7 +292,7 @@ func GenAction(t *rapid.T, bias GenBias) Action {
 	a.Scope = rapid.SampledFrom([]int{0, 0, 0, 1}).Draw(t, "scope")
 	// A governance / value action whose transaction faults after the action was performed: native caches, balances
 	// and storage it touched have to be as if it never ran (on the running node as well as on a restarted one).
-	if (fam == 0 || fam == 1) && rapid.IntRange(0, 11).Draw(t, "fail_after") == 0 {
+	if (fam == 0 || fam == 1 || fam == 2) && rapid.IntRange(0, 11).Draw(t, "fail_after") == 0 {
 		a.Fail = true
 	}
 	return a
